@@ -178,6 +178,19 @@ def truncateRow (nsq : α → Rat) (k : Nat) (r : RowOf α) : RowOf α :=
 
 def truncateRows (nsq : α → Rat) (k : Nat) (rows : Rows α) : Rows α := rows.map (truncateRow nsq k)
 
+/-- the array `truncate_rows_csr` zeroes the head of: the row after `qsort_twoarrays` -/
+def sortedRow (nsq : α → Rat) (r : RowOf α) : RowOf α :=
+  (qsortTwo nsq (r.length + 1) r.toArray 0 ((r.length : Int) - 1)).toList
+
+/-- per-instance certificate for a long row: the sort returned a permutation of the stored entries,
+and every entry in the zeroed head is at most as large as every entry of the kept tail -/
+def truncCheck (nsq : α → Rat) (k : Nat) (r : RowOf α) : Bool :=
+  if r.length > k then
+    let a := sortedRow nsq r
+    a.isPerm r && (List.range (r.length - k)).all fun t => (List.range' (r.length - k) k).all fun u =>
+      decide (nsq (a.getD t (0, 0)).2 ≤ nsq (a.getD u (0, 0)).2)
+  else true
+
 /-! ### dense definitions -/
 
 abbrev Mat (α : Type) := Array (Array α)
